@@ -8,6 +8,8 @@ def run(P, R, L):
     K.ord8_publication(P, R, L)
     R.clause("ORD-8b", "the group is numbered prev+1 .. prev+len(group); exactly that batch is logged, applied and published; entries get consecutive sequences")
     K.ord8b_sequence_range(P, R, L)
+    from . import round12 as _r12
+    _r12.ord8b_span_not_narrowed(P, R, L)
     R.clause("ORD-8c", "recovery restores the sequence of the LAST operation of the last replayed batch (start + len - 1)")
     K.ord8c_recovered_sequence(P, R, L)
     R.clause("LCK-1", "get_snapshot / new_iterator / get read the visible sequence while the DB mutex is held")
